@@ -232,7 +232,7 @@ theorem inv_step (s : Seq K T Op Req Ans) (c c' : Config K T Op Req Ans)
         intro rq' pc a' st' n' he; simp at he; omega)
 
 theorem inv_initial (s : Seq K T Op Req Ans) (c : Config K T Op Req Ans) (h : Initial s c) : Inv s c := by
-  obtain ⟨h1, h2, h3, h4, h5, h6, h7⟩ := h
+  obtain ⟨h1, h2, h3, h4, h5, h6, _, h7⟩ := h
   refine ⟨fun _ => by simp [h1, h5, run], by simp [h2], ?_, by simp [h5, run, ← h1], ?_, ?_⟩
   · intro j _
     rcases h7 j with ⟨op, loc, e⟩ | ⟨rq, e⟩ <;> simp [e, inCS]
